@@ -1054,6 +1054,11 @@ M('C10', 'dense/sparse exporters ignore explicit_plus_hc (original defect)', 'te
 """, """    return H
 """, 'HCFLAG-model')
 
+M('C10', 'calc_H_bond_from_MPO reads the flag from the model (original defect)', MODEL,
+  """        if H_MPO.explicit_plus_hc:
+            # represented H = H_MPO + h.c.""", """        if self.explicit_plus_hc:
+            # represented H = H_MPO + h.c.""", 'ATTR-defined')
+
 # ---------------------------------------------------------------- C16 / C19
 M('C16', 'GMRES restart: relative residual norm used for normalisation (round-3 seed b)', KRY,
   """        self.total_error.append([npc.norm(self.rs[-1]) / self.b_norm])
